@@ -43,13 +43,13 @@ def drop(d):
     shutil.rmtree(d, ignore_errors=True)
 
 
-def cmd_import(prop, which, src="/tmp/seed"):
+def cmd_import(prop, which, src="/tmp/seed", as_=None):
     s = Path(src) / prop / "_seed" / which
-    t = SEEDED / f"{prop}-{which}"
+    t = SEEDED / f"{prop}-{as_ or which}"
     t.mkdir(parents=True, exist_ok=True)
     shutil.copy(s / "patch.diff", t / "patch.diff")
     demo = (s / "demo.py").read_text()
-    demo = re.sub(r'["\']/tmp/seed/C\d+(/?)["\']',
+    demo = re.sub(r'["\']/tmp/seed2?/C\d+(/?)["\']',
                   lambda m: '(__import__("os").environ.get("GSCRIB_REPO", "/repo") + "%s")' % m.group(1), demo)
     (t / "demo.py").write_text(demo)
     if (s / "notes.md").exists():
@@ -145,7 +145,12 @@ def table():
 if __name__ == "__main__":
     a = sys.argv[1:]
     if a[0] == "import":
-        cmd_import(a[1], a[2], *(a[4:5] if len(a) > 3 and a[3] == "--from" else []))
+        kw = {}
+        if "--from" in a:
+            kw["src"] = a[a.index("--from") + 1]
+        if "--as" in a:
+            kw["as_"] = a[a.index("--as") + 1]
+        cmd_import(a[1], a[2], **kw)
     elif a[0] == "confirm":
         confirm(a[1])
     elif a[0] == "check":
